@@ -122,7 +122,9 @@ def gen_request(ch, tag, upload_enabled, paths=None):
     elif k == 10:  # non-ascii / percent
         s = ch.pick("uni", ["gemini://srv.sim/ñ.gmi", "gemini://srv.sim/%C3%B1.gmi",
                             "gemini://srv.sim/with space", "gemini://srv.sim/%00",
-                            "gemini://srv.sim/‮"]).encode() + b"\r\n"
+                            "gemini://srv.sim/‮", "gemini:///" + "é" * 505,
+                            "http://x/" + "日" * 335, "gemini://u@h/" + "ü" * 500,
+                            "gemini://srv.sim/" + "é" * 500]).encode() + b"\r\n"
     else:          # oversize stream without CRLF, sent in several pieces
         s = b"gemini://srv.sim/" + b"b" * (1100 + ch.choose("over", 3000))
         info["nocrlf"] = True
@@ -180,6 +182,9 @@ def handler_plans():
         R(status=200, meta="three digits", body="x"),
         R(status=20, meta="text/plain", body="lone surrogate \udcff here"),
         R(status=20, meta="text/\udc80plain", body="meta surrogate"),
+        R(status=50, meta="é" * 900),
+        R(status=20, meta="text/plain; note=" + "ü" * 700, body="non-ascii long meta"),
+        R(status=40, meta="日本語" * 400),
         None,
         "20 text/plain\r\nnot a response object",
     ]
@@ -188,6 +193,7 @@ def handler_plans():
         Exception(LONG), OSError(5, "I/O ünï"), Exception("cr\ronly"), Exception(""),
         UnicodeDecodeError("utf-8", b"\xff", 0, 1, "bad"), ZeroDivisionError(),
         Exception("surrogate \udcfe text"), asyncio.CancelledError(),
+        ValueError("ü" * 800), RuntimeError("日本" * 600),
     ]
     return good, bad, excs
 
